@@ -44,6 +44,10 @@ func (e *SExpr) String() string {
 		return e.Name + "(" + strings.Join(as, ", ") + ")"
 	case "old":
 		return "old(" + e.Args[0].String() + ")"
+	case "elems":
+		return e.Args[0].String() + "[*]"
+	case "fields":
+		return e.Args[0].String() + ".*"
 	case "forall", "exists":
 		return "(" + e.Op + " " + e.Name + " " + e.BT + " :: " + e.Args[0].String() + ")"
 	case "unop":
@@ -248,6 +252,11 @@ func (p *sparser) postfix() (*SExpr, error) {
 		switch {
 		case p.isOp("."):
 			p.next()
+			if p.isOp("*") {
+				p.next()
+				x = &SExpr{Op: "fields", Args: []*SExpr{x}}
+				continue
+			}
 			id := p.next()
 			if id.k != "id" {
 				return nil, fmt.Errorf("expected field name at %d in %q", id.p, p.s)
@@ -269,6 +278,14 @@ func (p *sparser) postfix() (*SExpr, error) {
 			x = &SExpr{Op: "sel", Name: id.v, Args: []*SExpr{x}, Pos: id.p}
 		case p.isOp("["):
 			p.next()
+			if p.isOp("*") {
+				p.next()
+				if err := p.expect("]"); err != nil {
+					return nil, err
+				}
+				x = &SExpr{Op: "elems", Args: []*SExpr{x}}
+				continue
+			}
 			var lo, hi *SExpr
 			if !p.isOp(":") {
 				lo, err = p.expr(0)
